@@ -2,13 +2,18 @@
 C17 — property theorems: "Hierarchies stay rooted DAGs and failed updates change nothing".
 Only property statements live here; helper lemmas are in Lemmas.lean.
 
-Every theorem holds for an ARBITRARY identifier normaliser `norm` (no idempotence needed) and
-for every hierarchy satisfying the invariant `WF`, which `history_invariant` establishes for the
-result of every constructor call followed by any sequence of accepted and rejected calls.
+The invariant `WF norm h` is established by `history_invariant` for the result of every constructor
+call followed by any sequence of accepted and rejected calls, for an ARBITRARY normaliser `norm`.
+The model normalises exactly where the code does (also the repeated normalisation in nested public
+calls), so the theorems about `descendants`/`subsumes`/`compatible` and the query form of the
+redundancy clause assume `Idem norm` (`str.lower` and the identity are idempotent); all others do not.
 
 Not a theorem, on purpose: "a rejected update leaves every query answer as before".  The model is
 pure, so `step` returns the old state on `.error` by construction; that clause is carried by the
 harness on the real code (full query set + state snapshot after every rejected call).
+`norm_invariance` (one query, two spellings of an argument) is immediate from the model's definitions,
+exactly as it is from the code's (every method starts with `norm`); the spelling clause with content is
+`update_respell` / `history_respell`: histories written in different spellings reach the SAME state.
 -/
 import Verif.C17.Lemmas
 import Verif.Generated.TablesC17
@@ -16,31 +21,38 @@ import Verif.Generated.TablesC17
 namespace Verif.C17
 open Relation
 
+/-- an idempotent identifier normaliser -/
+def Idem (norm : Id → Id) : Prop := ∀ x, norm (norm x) = norm x
+
 /-- The invariant: `_hier` is an insertion-ordered rooted DAG without redundant parents
-(`HierOK`) and `_loer` is its inverse (`LoerOK`). -/
-structure WF (h : H) : Prop where
+(`HierOK`), `_loer` is its inverse (`LoerOK`), and every stored identifier is a value of `norm`. -/
+structure WF (norm : Id → Id) (h : H) : Prop where
   hier : HierOK h.top h.hier
   loer : LoerOK h.hier h.loer
+  normed : ∀ k ∈ keys h.hier, ∃ x, norm x = k
 
 /-! ### the invariant holds after every history -/
 
-theorem new_wf (top : Id) : WF (H.new top) := by
-  refine ⟨HierOK.base, ⟨fun x => Iff.rfl, ?_⟩⟩
-  intro p c
-  simp only [H.new, childrenOf_cons, parentsOf_cons]
-  constructor
-  · intro h; split at h
-    · cases h
-    · simp [childrenOf, get?] at h
-  · intro h; split at h
-    · cases h
-    · simp [parentsOf, get?] at h
+theorem new_wf (norm : Id → Id) (top : Id) : WF norm (H.new (norm top)) := by
+  refine ⟨HierOK.base, ⟨fun x => Iff.rfl, ?_⟩, ?_⟩
+  · intro p c
+    simp only [H.new, childrenOf_cons, parentsOf_cons]
+    constructor
+    · intro h; split at h
+      · cases h
+      · simp [childrenOf, get?] at h
+    · intro h; split at h
+      · cases h
+      · simp [parentsOf, get?] at h
+  · intro k hk
+    simp only [H.new, keys, List.map_cons, List.map_nil, List.mem_singleton] at hk
+    exact ⟨top, hk.symm⟩
 
 /-- "[core] invariant WF preserved by every accepted update": whatever batch and data are passed,
 in whatever spelling, an accepted `update` yields a well-formed hierarchy with the same top. -/
 theorem update_wf {norm : Id → Id} {h h' : H} {raw : Option (List (Id × PSpec))}
-    {dat : Option (List (Id × Dat))} (hw : WF h) (hu : update norm h raw dat = .ok h') :
-    WF h' ∧ h'.top = h.top := by
+    {dat : Option (List (Id × Dat))} (hw : WF norm h) (hu : update norm h raw dat = .ok h') :
+    WF norm h' ∧ h'.top = h.top := by
   unfold update at hu
   simp only at hu
   split at hu
@@ -64,7 +76,11 @@ theorem update_wf {norm : Id → Id} {h h' : H} {raw : Option (List (Id × PSpec
             exact hemp e he (by simp [hnil])
           have := loop_wf (top := h.top) _ _ (h.hier, h.loer) st ⟨hw.hier, hw.loer⟩
             (normalizeSub_nodup norm _) hall hst
-          exact ⟨⟨this.1, this.2⟩, rfl⟩
+          refine ⟨⟨this.1, this.2, ?_⟩, rfl⟩
+          intro k hk
+          rcases loop_keys _ _ (h.hier, h.loer) st hst k hk with hk | hk
+          · exact normalizeSub_keys_normed norm _ k hk
+          · exact hw.normed k hk
 
 /-- the fuel of the `while` loop (the batch size) always suffices -/
 theorem update_ne_fuel (norm : Id → Id) (h : H) (raw : Option (List (Id × PSpec)))
@@ -83,23 +99,23 @@ theorem update_ne_fuel (norm : Id → Id) (h : H) (raw : Option (List (Id × PSp
           exact loop_ne_fuel _ _ _ (Nat.le_refl _) hx
         · simp
 
-theorem setItem_wf {norm : Id → Id} {h h' : H} {x : Id} {d : Dat} (hw : WF h)
-    (hs : setItem norm h x d = .ok h') : WF h' ∧ h'.top = h.top := by
+theorem setItem_wf {norm : Id → Id} {h h' : H} {x : Id} {d : Dat} (hw : WF norm h)
+    (hs : setItem norm h x d = .ok h') : WF norm h' ∧ h'.top = h.top := by
   unfold setItem at hs
   split at hs
-  · cases hs; exact ⟨⟨hw.hier, hw.loer⟩, rfl⟩
+  · cases hs; exact ⟨⟨hw.hier, hw.loer, hw.normed⟩, rfl⟩
   · cases hs
 
 theorem construct_wf {norm : Id → Id} {top : Id} {raw : Option (List (Id × PSpec))}
     {dat : Option (List (Id × Dat))} {h : H} (hc : construct norm top raw dat = .ok h) :
-    WF h ∧ h.top = norm top := by
+    WF norm h ∧ h.top = norm top := by
   unfold construct at hc
   split at hc
-  · cases hc; exact ⟨new_wf _, rfl⟩
-  · exact update_wf (new_wf _) hc
+  · cases hc; exact ⟨new_wf _ _, rfl⟩
+  · exact update_wf (new_wf _ _) hc
 
-theorem step_wf {norm : Id → Id} {h : H} (c : Call) (hw : WF h) :
-    WF (step norm h c) ∧ (step norm h c).top = h.top := by
+theorem step_wf {norm : Id → Id} {h : H} (c : Call) (hw : WF norm h) :
+    WF norm (step norm h c) ∧ (step norm h c).top = h.top := by
   unfold step
   split
   · rename_i h' hc
@@ -113,8 +129,9 @@ the invariant holds after the constructor (with any initial batch it accepts) fo
 of `update` / `__setitem__` calls, valid or invalid; and the top never changes. -/
 theorem history_invariant {norm : Id → Id} {top : Id} {raw : Option (List (Id × PSpec))}
     {dat : Option (List (Id × Dat))} {h0 : H} (hc : construct norm top raw dat = .ok h0)
-    (cs : List Call) : WF (run norm h0 cs) ∧ (run norm h0 cs).top = norm top := by
-  have gen : ∀ (cs : List Call) (h : H), WF h → WF (run norm h cs) ∧ (run norm h cs).top = h.top := by
+    (cs : List Call) : WF norm (run norm h0 cs) ∧ (run norm h0 cs).top = norm top := by
+  have gen : ∀ (cs : List Call) (h : H), WF norm h →
+      WF norm (run norm h cs) ∧ (run norm h cs).top = h.top := by
     intro cs
     induction cs with
     | nil => intro h hw; exact ⟨hw, rfl⟩
@@ -127,11 +144,17 @@ theorem history_invariant {norm : Id → Id} {top : Id} {raw : Option (List (Id 
   have := gen cs h0 h0w.1
   exact ⟨this.1, this.2.trans h0w.2⟩
 
+/-- every stored identifier is a fixed point of an idempotent normaliser -/
+theorem stored_fixed {norm : Id → Id} {h : H} (hw : WF norm h) (hid : Idem norm) {k : Id}
+    (hk : k ∈ keys h.hier) : norm k = k := by
+  obtain ⟨x, rfl⟩ := hw.normed k hk
+  exact hid x
+
 /-! ### what the invariant says about the queries -/
 
 /-- "parents and children are mutual inverses": `c` is among the children of `p` iff `p` is
 among the parents of `c` (any spellings). -/
-theorem children_parents_inverse {norm : Id → Id} {h : H} (hw : WF h) (p c : Id) :
+theorem children_parents_inverse {norm : Id → Id} {h : H} (hw : WF norm h) (p c : Id) :
     (∃ cs, children norm h p = .ok cs ∧ norm c ∈ cs) ↔ (∃ ps, parents norm h c = .ok ps ∧ norm p ∈ ps) := by
   have key := hw.loer.inv (norm p) (norm c)
   unfold childrenOf parentsOf at key
@@ -159,7 +182,7 @@ theorem children_parents_inverse {norm : Id → Id} {h : H} (hw : WF h) (p c : I
     · cases hps
 
 /-- every listed parent and every listed child is a node, and both maps have the same keys -/
-theorem parents_children_closed {h : H} (hw : WF h) :
+theorem parents_children_closed {norm : Id → Id} {h : H} (hw : WF norm h) :
     (∀ x y, y ∈ parentsOf h.hier x → y ∈ keys h.hier) ∧
     (∀ x y, y ∈ childrenOf h.loer x → y ∈ keys h.loer) ∧
     (∀ x, x ∈ keys h.loer ↔ x ∈ keys h.hier) := by
@@ -168,17 +191,28 @@ theorem parents_children_closed {h : H} (hw : WF h) :
   exact (hw.loer.keys_iff y).2 (mem_keys_of_parentsOf ((hw.loer.inv x y).1 hy))
 
 /-- "ancestors [is the] transitive closure [of parents]" -/
-theorem ancestors_closure {norm : Id → Id} {h : H} (hw : WF h) {a : Id} {as : List Id}
+theorem ancestors_closure {norm : Id → Id} {h : H} (hw : WF norm h) {a : Id} {as : List Id}
     (ha : ancestors norm h a = .ok as) (b : Id) : b ∈ as ↔ TransGen (P h.hier) (norm a) b := by
   unfold ancestors at ha
   split at ha
   · cases ha; exact hw.hier.anc_iff_transGen _ _
   · cases ha
 
+/-- the method `descendants`, which re-normalises every child on its way down, computes the
+normaliser-free closure `descF` of the normalised argument (idempotent normaliser) -/
+theorem descendants_eq {norm : Id → Id} {h : H} (hw : WF norm h) (hid : Idem norm) (x : Id) :
+    descendants norm h x =
+      if norm x ∈ keys h.loer then .ok (descF h.hier.length h.loer (norm x)) else .error .keyError := by
+  unfold descendants
+  rw [descN_eq_descF]
+  intro p c hc
+  exact stored_fixed hw hid ((hw.loer.keys_iff c).1 ((parents_children_closed hw).2.1 p c hc))
+
 /-- "descendants [is the] transitive closure [of children]", i.e. the inverse of ancestors -/
-theorem descendants_closure {norm : Id → Id} {h : H} (hw : WF h) {a : Id} {ds : List Id}
-    (ha : descendants norm h a = .ok ds) (x : Id) : x ∈ ds ↔ TransGen (P h.hier) x (norm a) := by
-  unfold descendants desc at ha
+theorem descendants_closure {norm : Id → Id} {h : H} (hw : WF norm h) (hid : Idem norm) {a : Id}
+    {ds : List Id} (ha : descendants norm h a = .ok ds) (x : Id) :
+    x ∈ ds ↔ TransGen (P h.hier) x (norm a) := by
+  rw [descendants_eq hw hid] at ha
   split at ha
   · cases ha
     constructor
@@ -187,19 +221,20 @@ theorem descendants_closure {norm : Id → Id} {h : H} (hw : WF h) {a : Id} {ds 
   · cases ha
 
 /-- descendants and ancestors are mutually inverse at the level of the queries -/
-theorem descendants_ancestors_inverse {norm : Id → Id} {h : H} (hw : WF h) {a b : Id} {ds as : List Id}
+theorem descendants_ancestors_inverse {norm : Id → Id} {h : H} (hw : WF norm h) (hid : Idem norm)
+    {a b : Id} {ds as : List Id}
     (hd : descendants norm h a = .ok ds) (ha : ancestors norm h b = .ok as) :
     norm b ∈ ds ↔ norm a ∈ as := by
-  rw [descendants_closure hw hd, ancestors_closure hw ha]
+  rw [descendants_closure hw hid hd, ancestors_closure hw ha]
 
 /-- "acyclic": no node is its own ancestor -/
-theorem acyclic {h : H} (hw : WF h) (a : Id) : ¬ TransGen (P h.hier) a a := by
+theorem acyclic {norm : Id → Id} {h : H} (hw : WF norm h) (a : Id) : ¬ TransGen (P h.hier) a a := by
   intro t
   exact Nat.lt_irrefl _ (hw.hier.rank_transGen t)
 
 /-- "every node descends from the top" — full strength (the repaired code rejects entries
 without parents, so no hypothesis on the history is needed beyond `WF`). -/
-theorem rooted {norm : Id → Id} {h : H} (hw : WF h) {n : Id} {as : List Id}
+theorem rooted {norm : Id → Id} {h : H} (hw : WF norm h) {n : Id} {as : List Id}
     (ha : ancestors norm h n = .ok as) (hne : norm n ≠ h.top) : h.top ∈ as := by
   unfold ancestors at ha
   split at ha
@@ -217,31 +252,37 @@ theorem history_rooted {norm : Id → Id} {top : Id} {raw : Option (List (Id × 
   exact rooted hi.1 ha (by rw [hi.2]; exact hne)
 
 /-- the top is a node and has no parents -/
-theorem top_is_root {h : H} (hw : WF h) : h.top ∈ keys h.hier ∧ parentsOf h.hier h.top = [] :=
+theorem top_is_root {norm : Id → Id} {h : H} (hw : WF norm h) :
+    h.top ∈ keys h.hier ∧ parentsOf h.hier h.top = [] :=
   ⟨hw.hier.top_mem, hw.hier.top_parents⟩
 
-/-- "no node lists a parent that is already an ancestor of another of its parents"
-(`anc h.hier q` is what `ancestors` answers for the stored identifier `q`, see the corollary). -/
-theorem no_redundant_parent {norm : Id → Id} {h : H} (hw : WF h) {n p q : Id} {ps : List Id}
-    (hps : parents norm h n = .ok ps) (hp : p ∈ ps) (hq : q ∈ ps) : p ∉ anc h.hier q := by
+/-- "no node lists a parent that is already an ancestor of another of its parents", through the
+queries: no member `p` of the answer of `parents(n)` is in the answer of `ancestors(q)` for another
+(or the same) member `q` (idempotent normaliser: `ancestors` normalises the stored `q` again). -/
+theorem no_redundant_parent {norm : Id → Id} {h : H} (hw : WF norm h) (hid : Idem norm)
+    {n p q : Id} {ps as : List Id}
+    (hps : parents norm h n = .ok ps) (hp : p ∈ ps) (hq : q ∈ ps)
+    (ha : ancestors norm h q = .ok as) : p ∉ as := by
   unfold parents at hps
   split at hps
   · rename_i ps' hg
     cases hps
     have hp' : p ∈ parentsOf h.hier (norm n) := by unfold parentsOf; rw [hg]; exact hp
     have hq' : q ∈ parentsOf h.hier (norm n) := by unfold parentsOf; rw [hg]; exact hq
-    exact hw.hier.nonredundant hp' hq'
+    have hfix : norm q = q := stored_fixed hw hid (hw.hier.parent_mem hq')
+    unfold ancestors at ha
+    split at ha
+    · cases ha; rw [hfix]; exact hw.hier.nonredundant hp' hq'
+    · cases ha
   · cases hps
 
-/-- the same through the `ancestors` query, for a stored parent `q` that the normaliser fixes
-(every stored identifier is one when `norm` is idempotent, as `str.lower` is) -/
-theorem no_redundant_parent_query {norm : Id → Id} {h : H} (hw : WF h) {n p q : Id} {ps as : List Id}
-    (hps : parents norm h n = .ok ps) (hp : p ∈ ps) (hq : q ∈ ps) (hfix : norm q = q)
-    (ha : ancestors norm h q = .ok as) : p ∉ as := by
-  unfold ancestors at ha
-  split at ha
-  · cases ha; rw [hfix]; exact no_redundant_parent hw hps hp hq
-  · cases ha
+/-- end-to-end form of the redundancy clause over any history -/
+theorem history_no_redundant_parent {norm : Id → Id} (hid : Idem norm) {top : Id}
+    {raw : Option (List (Id × PSpec))} {dat : Option (List (Id × Dat))} {h0 : H}
+    (hc : construct norm top raw dat = .ok h0) (cs : List Call) {n p q : Id} {ps as : List Id}
+    (hps : parents norm (run norm h0 cs) n = .ok ps) (hp : p ∈ ps) (hq : q ∈ ps)
+    (ha : ancestors norm (run norm h0 cs) q = .ok as) : p ∉ as :=
+  no_redundant_parent (history_invariant hc cs).1 hid hps hp hq ha
 
 /-! ### subsumption and compatibility -/
 
@@ -249,64 +290,65 @@ theorem no_redundant_parent_query {norm : Id → Id} {h : H} (hw : WF h) {n p q 
 def Sub (norm : Id → Id) (h : H) (a b : Id) : Prop := subsumes norm h a b = .ok true
 
 /-- subsumption is "equal or a proper ancestor" -/
-theorem sub_iff {norm : Id → Id} {h : H} (hw : WF h) (a b : Id) :
+theorem sub_iff {norm : Id → Id} {h : H} (hw : WF norm h) (hid : Idem norm) (a b : Id) :
     Sub norm h a b ↔ norm a = norm b ∨ TransGen (P h.hier) (norm b) (norm a) := by
   unfold Sub subsumes
   by_cases hab : norm a = norm b
   · simp [hab]
-  · rw [if_neg hab]
-    unfold desc
-    constructor
-    · intro hs
-      right
-      split at hs
-      · rename_i ds hd
-        split at hd
-        · cases hd
-          have : norm b ∈ descF h.hier.length h.loer (norm a) := by simpa using hs
-          exact descF_sound hw.loer _ _ _ this
-        · cases hd
-      · cases hs
-    · rintro (e | t)
-      · exact absurd e hab
-      · have hmem : norm a ∈ keys h.loer := by
+  · simp only [if_neg hab]
+    rw [descendants_eq hw hid, hid a]
+    by_cases hmem : norm a ∈ keys h.loer
+    · simp only [if_pos hmem]
+      constructor
+      · intro hs
+        right
+        have : norm b ∈ descF h.hier.length h.loer (norm a) := by simpa using hs
+        exact descF_sound hw.loer _ _ _ this
+      · rintro (e | t)
+        · exact absurd e hab
+        · have := descF_complete hw.hier hw.loer t h.hier.length (Nat.le_add_right _ _)
+          simp [this]
+    · simp only [if_neg hmem]
+      constructor
+      · intro hs; cases hs
+      · rintro (e | t)
+        · exact absurd e hab
+        · exfalso
+          apply hmem
           have : norm a ∈ keys h.hier := by
             cases t with
             | single hp => exact hw.hier.parent_mem hp
             | tail _ hp => exact hw.hier.parent_mem hp
           exact (hw.loer.keys_iff _).2 this
-        rw [if_pos hmem]
-        have := descF_complete hw.hier hw.loer t h.hier.length (Nat.le_add_right _ _)
-        simp [this]
 
 /-- on nodes `subsumes` always answers (never raises) -/
-theorem subsumes_total {norm : Id → Id} {h : H} (hw : WF h) {a : Id} (ha : contains norm h a = true) (b : Id) :
-    ∃ r, subsumes norm h a b = .ok r := by
+theorem subsumes_total {norm : Id → Id} {h : H} (hw : WF norm h) (hid : Idem norm) {a : Id}
+    (ha : contains norm h a = true) (b : Id) : ∃ r, subsumes norm h a b = .ok r := by
   unfold subsumes
+  simp only
   split
   · exact ⟨true, rfl⟩
-  · unfold desc
-    have : norm a ∈ keys h.loer := (hw.loer.keys_iff _).2 (by simpa [contains] using ha)
-    rw [if_pos this]
+  · have : norm a ∈ keys h.loer := (hw.loer.keys_iff _).2 (by simpa [contains] using ha)
+    rw [descendants_eq hw hid, hid a, if_pos this]
     exact ⟨_, rfl⟩
 
 /-- "subsumption is a partial order" (1/3): reflexive -/
 theorem sub_refl (norm : Id → Id) (h : H) (a : Id) : Sub norm h a a := by
-  unfold Sub subsumes; rw [if_pos rfl]
+  unfold Sub subsumes; simp
 
 /-- "subsumption is a partial order" (2/3): antisymmetric (up to the normaliser) -/
-theorem sub_antisymm {norm : Id → Id} {h : H} (hw : WF h) {a b : Id}
+theorem sub_antisymm {norm : Id → Id} {h : H} (hw : WF norm h) (hid : Idem norm) {a b : Id}
     (hab : Sub norm h a b) (hba : Sub norm h b a) : norm a = norm b := by
-  rcases (sub_iff hw a b).1 hab with e | t1
+  rcases (sub_iff hw hid a b).1 hab with e | t1
   · exact e
-  · rcases (sub_iff hw b a).1 hba with e | t2
+  · rcases (sub_iff hw hid b a).1 hba with e | t2
     · exact e.symm
     · exact absurd (TransGen.trans t1 t2) (acyclic hw _)
 
 /-- "subsumption is a partial order" (3/3): transitive -/
-theorem sub_trans {norm : Id → Id} {h : H} (hw : WF h) {a b c : Id}
+theorem sub_trans {norm : Id → Id} {h : H} (hw : WF norm h) (hid : Idem norm) {a b c : Id}
     (hab : Sub norm h a b) (hbc : Sub norm h b c) : Sub norm h a c := by
-  rw [sub_iff hw] at *
+  rw [sub_iff hw hid] at *
   rcases hab with e1 | t1 <;> rcases hbc with e2 | t2
   · exact Or.inl (e1.trans e2)
   · rw [e1]; exact Or.inr t2
@@ -314,27 +356,29 @@ theorem sub_trans {norm : Id → Id} {h : H} (hw : WF h) {a b c : Id}
   · exact Or.inr (TransGen.trans t2 t1)
 
 /-- "with the top as greatest element": the top (in any spelling `t`) subsumes every node -/
-theorem top_greatest {norm : Id → Id} {h : H} (hw : WF h) {t b : Id} (ht : norm t = h.top)
-    (hb : contains norm h b = true) : Sub norm h t b := by
-  rw [sub_iff hw, ht]
+theorem top_greatest {norm : Id → Id} {h : H} (hw : WF norm h) (hid : Idem norm) {t b : Id}
+    (ht : norm t = h.top) (hb : contains norm h b = true) : Sub norm h t b := by
+  rw [sub_iff hw hid, ht]
   by_cases e : norm b = h.top
   · exact Or.inl e.symm
   · right
     have hb' : norm b ∈ keys h.hier := by simpa [contains] using hb
     exact (hw.hier.anc_iff_transGen _ _).1 (hw.hier.rooted hb' e)
 
-/-- "compatibility is symmetric" — the two calls give the same answer, raising included -/
+/-- "compatibility is symmetric" — the two calls give the same answer, raising included
+(no assumption on the hierarchy or the normaliser) -/
 theorem compatible_comm (norm : Id → Id) (h : H) (a b : Id) :
     compatible norm h a b = compatible norm h b a := by
-  unfold compatible desc
-  by_cases ha : norm a ∈ keys h.loer <;> by_cases hb : norm b ∈ keys h.loer
+  unfold compatible descendants
+  simp only
+  by_cases ha : norm (norm a) ∈ keys h.loer <;> by_cases hb : norm (norm b) ∈ keys h.loer
   · simp only [if_pos ha, if_pos hb]; rw [any_mem_comm]
   · simp only [if_pos ha, if_neg hb]
   · simp only [if_neg ha, if_pos hb]
   · simp only [if_neg ha, if_neg hb]
 
 /-- "[compatibility] equals having a common descendant-or-self" -/
-theorem compatible_iff {norm : Id → Id} {h : H} (hw : WF h) {a b : Id}
+theorem compatible_iff {norm : Id → Id} {h : H} (hw : WF norm h) (hid : Idem norm) {a b : Id}
     (ha : contains norm h a = true) (hb : contains norm h b = true) :
     compatible norm h a b = .ok true ↔
       ∃ c, (c = norm a ∨ TransGen (P h.hier) c (norm a)) ∧ (c = norm b ∨ TransGen (P h.hier) c (norm b)) := by
@@ -342,7 +386,9 @@ theorem compatible_iff {norm : Id → Id} {h : H} (hw : WF h) {a b : Id}
   have hb' : norm b ∈ keys h.loer := (hw.loer.keys_iff _).2 (by simpa [contains] using hb)
   have hd : ∀ x i, x ∈ descF h.hier.length h.loer i ↔ TransGen (P h.hier) x i := fun x i =>
     ⟨descF_sound hw.loer _ _ _, fun t => descF_complete hw.hier hw.loer t _ (Nat.le_add_right _ _)⟩
-  unfold compatible desc
+  unfold compatible
+  simp only
+  rw [descendants_eq hw hid, descendants_eq hw hid, hid a, hid b]
   simp only [if_pos ha', if_pos hb']
   constructor
   · intro hc
@@ -361,7 +407,8 @@ theorem compatible_iff {norm : Id → Id} {h : H} (hw : WF h) {a b : Id}
 /-! ### spelling invariance -/
 
 /-- "with an identifier normalizer every query gives the same answer for all spellings the
-normalizer identifies" — every query, both argument positions. -/
+normalizer identifies" — one query, two spellings of an argument, every query and both argument
+positions.  (Immediate: every method of the model, as of the code, first normalises each argument.) -/
 theorem norm_invariance {norm : Id → Id} (h : H) {a a' : Id} (e : norm a = norm a') :
     contains norm h a = contains norm h a' ∧ parents norm h a = parents norm h a' ∧
     children norm h a = children norm h a' ∧ ancestors norm h a = ancestors norm h a' ∧
@@ -369,9 +416,82 @@ theorem norm_invariance {norm : Id → Id} (h : H) {a a' : Id} (e : norm a = nor
     (∀ b, subsumes norm h a b = subsumes norm h a' b) ∧ (∀ b, subsumes norm h b a = subsumes norm h b a') ∧
     (∀ b, compatible norm h a b = compatible norm h a' b) ∧
     (∀ b, compatible norm h b a = compatible norm h b a') := by
-  unfold contains parents children ancestors descendants getItem subsumes compatible
+  have hd : descendants norm h a = descendants norm h a' := by
+    unfold descendants
+    rw [e]
+    congr 2
+    cases hl : h.hier.length with
+    | zero => rfl
+    | succ n => simp only [descN]; rw [e]
+  unfold contains parents children ancestors getItem subsumes compatible contains
   rw [e]
-  simp
+  simp [hd]
+
+/-- `update` sees a batch and its data only through their normalised spelling: two calls whose
+entries agree after `_normalize_update` (identifier, split parent string or tuple, data key — all
+through `norm`) give the same result, accepted or rejected.  This fails as soon as one of the
+three were used un-normalised. -/
+theorem update_respell {norm : Id → Id} (h : H) {raw raw' : Option (List (Id × PSpec))}
+    {dat dat' : Option (List (Id × Dat))}
+    (hr : (raw.getD []).map (entryKey norm) = (raw'.getD []).map (entryKey norm))
+    (hd : (dat.getD []).map (datKey norm) = (dat'.getD []).map (datKey norm)) :
+    update norm h raw dat = update norm h raw' dat' := by
+  unfold update
+  rw [normalizeSub_eq norm (raw.getD []), normalizeSub_eq norm (raw'.getD []),
+    normalizeDat_eq norm (dat.getD []), normalizeDat_eq norm (dat'.getD []), hr, hd]
+
+/-- two calls that differ only in spellings the normaliser identifies -/
+inductive Respell (norm : Id → Id) : Call → Call → Prop
+  | update {raw raw' : Option (List (Id × PSpec))} {dat dat' : Option (List (Id × Dat))} :
+      (raw.getD []).map (entryKey norm) = (raw'.getD []).map (entryKey norm) →
+      (dat.getD []).map (datKey norm) = (dat'.getD []).map (datKey norm) →
+      Respell norm (.update raw dat) (.update raw' dat')
+  | set {x x' : Id} {d : Dat} : norm x = norm x' → Respell norm (.set x d) (.set x' d)
+
+/-- two histories that differ only in spellings -/
+inductive RespellAll (norm : Id → Id) : List Call → List Call → Prop
+  | nil : RespellAll norm [] []
+  | cons {c c' : Call} {cs cs' : List Call} :
+      Respell norm c c' → RespellAll norm cs cs' → RespellAll norm (c :: cs) (c' :: cs')
+
+theorem step_respell {norm : Id → Id} (h : H) {c c' : Call} (hc : Respell norm c c') :
+    step norm h c = step norm h c' := by
+  cases hc with
+  | update hr hd => simp only [step, applyCall]; rw [update_respell h hr hd]
+  | set e => simp only [step, applyCall, setItem]; rw [e]
+
+/-- "every query gives the same answer for all spellings the normalizer identifies", for whole
+histories: constructor calls and call sequences that differ only in spellings the normaliser
+identifies produce the SAME hierarchy state (hence the same answer to every query), whichever of
+the calls are accepted or rejected. -/
+theorem history_respell {norm : Id → Id} {top top' : Id} {raw raw' : Option (List (Id × PSpec))}
+    {dat dat' : Option (List (Id × Dat))} (ht : norm top = norm top')
+    (hr : raw.map (List.map (entryKey norm)) = raw'.map (List.map (entryKey norm)))
+    (hd : (dat.getD []).map (datKey norm) = (dat'.getD []).map (datKey norm)) :
+    construct norm top raw dat = construct norm top' raw' dat' ∧
+    ∀ (h : H) (cs cs' : List Call), RespellAll norm cs cs' → run norm h cs = run norm h cs' := by
+  constructor
+  · unfold construct
+    cases raw with
+    | none =>
+      cases raw' with
+      | none => simp only; rw [ht]
+      | some r' => simp at hr
+    | some r =>
+      cases raw' with
+      | none => simp at hr
+      | some r' =>
+        simp only [Option.map_some, Option.some.injEq] at hr
+        simp only
+        rw [ht]
+        exact update_respell _ (by simpa using hr) hd
+  · intro h cs cs' hall
+    induction hall generalizing h with
+    | nil => rfl
+    | cons hc _ ih =>
+      unfold run at ih ⊢
+      rw [List.foldl_cons, List.foldl_cons, step_respell h hc]
+      exact ih _
 
 /-! ### non-vacuity and regression witnesses (concrete, kernel-evaluated) -/
 
